@@ -272,6 +272,12 @@ void QXmppIncomingClient::sendStreamFeatures()
 
 void QXmppIncomingClient::handleStanza(const QDomElement &nodeRecv)
 {
+    // Once the stream has been closed (stream error, SASL failure, conflict, ...) nothing that arrived in the
+    // same read may be processed any more: the connection is already unregistered and about to be deleted.
+    if (!d->socket.isConnected()) {
+        return;
+    }
+
     const QString ns = nodeRecv.namespaceURI();
 
     if (d->idleTimer->interval()) {
